@@ -178,7 +178,7 @@ func (h *host) runTx(t *Ty, arg []byte, vm bool) (r result) {
 // paramAnnot: type annotation with contract-qualified names
 func paramAnnot(t *Ty) string {
 	s := t.annot()
-	for _, n := range []string{"S0", "S1", "S2", "S3", "R0", "Ev", "I0", "I2"} {
+	for _, n := range []string{"S0", "S1", "S2", "S3", "S4", "R0", "Ev", "En", "I0", "I2"} {
 		s = replaceWord(s, n, "C."+n)
 	}
 	return s
@@ -234,7 +234,7 @@ func (g *gen) paramType(depth int) *Ty {
 	if depth <= 0 || r.Chance(2, 5) {
 		switch r.Intn(12) {
 		case 0, 1:
-			return comp(r.Intn(4))
+			return comp(lib.Pick(r, []int{0, 1, 2, 3, 6, 7}))
 		case 2:
 			return inter(lib.Pick(r, [][]int{{0}, {1}, {0, 1}})...)
 		case 3:
@@ -251,6 +251,9 @@ func (g *gen) paramType(depth int) *Ty {
 		return varr(g.paramType(depth - 1))
 	case 4:
 		return carr(g.paramType(depth-1), r.Intn(3))
+	}
+	if r.Chance(1, 4) {
+		return dict(comp(6), g.paramType(depth-1)) // enum keys
 	}
 	return dict(prim(lib.Pick(r, []string{"String", "Int", "UInt8", "Address", "HashableStruct", "Character"})), g.paramType(depth-1))
 }
@@ -316,8 +319,14 @@ func (g *gen) num(p string) *X {
 	return &X{K: "num", P: p, N: n}
 }
 
+func enumValue(raw int64) *X {
+	return &X{K: "comp", Kind: "Enum", C: 6, Fields: []int{8}, Elems: []*X{{K: "num", P: "UInt8", N: big.NewInt(raw)}}}
+}
+
 func (g *gen) key(p string, i int) *X {
 	switch p {
+	case "En":
+		return enumValue(int64(i))
 	case "String":
 		return &X{K: "string", S: fmt.Sprintf("k%d", i)}
 	case "Character":
@@ -362,7 +371,7 @@ func (g *gen) untyped(depth int) *X {
 	r := g.rng
 	switch r.Intn(10) {
 	case 0, 1:
-		return g.wellTyped(comp(r.Intn(4)), depth-1)
+		return g.wellTyped(comp(lib.Pick(r, []int{0, 1, 2, 3, 7})), depth-1)
 	case 2:
 		if depth > 0 {
 			return g.wellTyped(opt(prim(lib.Pick(r, scalarPrims))), depth-1)
@@ -406,6 +415,16 @@ func (g *gen) untyped(depth int) *X {
 		}
 	case 6:
 		return &X{K: "none"}
+	case 7:
+		if depth > 0 && r.Bool() {
+			x := &X{K: "dict"}
+			for i := 0; i < 1+r.Intn(2); i++ {
+				x.Keys = append(x.Keys, enumValue(int64(i)))
+				x.Elems = append(x.Elems, g.scalarOf("Int"))
+			}
+			return x
+		}
+		return enumValue(int64(r.Intn(3)))
 	}
 	return g.scalarOf(lib.Pick(r, scalarPrims))
 }
@@ -448,8 +467,12 @@ func (g *gen) wellTyped(t *Ty, depth int) *X {
 	case "dict":
 		n := r.Intn(3)
 		x := &X{K: "dict"}
+		kp := t.A.P
+		if t.A.K == "comp" {
+			kp = "En"
+		}
 		for i := 0; i < n; i++ {
-			x.Keys = append(x.Keys, g.key(t.A.P, i))
+			x.Keys = append(x.Keys, g.key(kp, i))
 			x.Elems = append(x.Elems, g.wellTyped(t.B, depth-1))
 		}
 		return x
@@ -460,6 +483,9 @@ func (g *gen) wellTyped(t *Ty, depth int) *X {
 		}
 		if t.C == 5 {
 			kind = "Event"
+		}
+		if t.C == 6 {
+			return enumValue(int64(r.Intn(4)))
 		}
 		return g.compValue(t.C, kind, depth)
 	case "inter":
@@ -510,7 +536,14 @@ func (g *gen) mutate(t *Ty, x *X) (*X, string) {
 	}
 	anyPos := func(*X) bool { return true }
 	isComp := func(v *X) bool { return v.K == "comp" }
-	switch r.Intn(12) {
+	switch r.Intn(14) {
+	case 12, 13: // more weight on composites that are malformed inside
+		if p := pickPos(isComp); p != nil && len((*p).Elems) > 0 {
+			c := *p
+			i := r.Intn(len(c.Elems))
+			c.Elems[i] = g.scalarOf(lib.Pick(r, scalarPrims))
+			return y, "malformed-field-one-level-deeper"
+		}
 	case 0: // wrong at the top level
 		return g.wellTyped(g.paramType(1), 1), "top-level-other-type"
 	case 1, 2: // nested element of another type
@@ -563,10 +596,10 @@ func (g *gen) mutate(t *Ty, x *X) (*X, string) {
 				c.C = 8
 				return y, "wrong-location"
 			case 2:
-				c.C = (c.C + 1 + r.Intn(3)) % 4
+				c.C = lib.Pick(r, []int{0, 1, 2, 3, 6, 7})
 				return y, "other-declared-type-id"
 			case 3:
-				c.Kind = lib.Pick(r, []string{"Resource", "Event", "Enum"})
+				c.Kind = lib.Pick(r, []string{"Resource", "Event", "Enum", "Struct"})
 				return y, "wrong-kind-tag"
 			}
 		}
@@ -635,6 +668,22 @@ func (g *gen) mutate(t *Ty, x *X) (*X, string) {
 				*p = &X{K: "dict"}
 			}
 			return y, "empty-container"
+		}
+	case 11: // right outer type id, malformed one level deeper: a field of some composite (incl. enum keys)
+		if p := pickPos(isComp); p != nil && len((*p).Elems) > 0 {
+			c := *p
+			i := r.Intn(len(c.Elems))
+			switch r.Intn(4) {
+			case 0:
+				c.Elems[i] = &X{K: "string", S: "a"}
+			case 1:
+				c.Elems[i] = g.num(lib.Pick(r, []string{"UInt16", "Int", "Int8", "UInt8", "Word8"}))
+			case 2:
+				c.Elems[i] = &X{K: "array", Elems: []*X{g.num("UInt8")}}
+			case 3:
+				c.Elems[i] = &X{K: "bool", B: true}
+			}
+			return y, "malformed-field-one-level-deeper"
 		}
 	case 10: // number of a sibling numeric type
 		if p := pickPos(func(v *X) bool { return v.K == "num" }); p != nil {
